@@ -387,7 +387,7 @@ inline SliceItemPtr build_item(const Sx& x) {
   const std::string h = x.head();
   if (h == "at") return std::make_shared<SliceAt>(to_i64(x[1]));
   if (h == "rng") return std::make_shared<SliceRange>(bound(x[1]), bound(x[2]), bound(x[3]));
-  if (h == "arr") {  // (arr (shape...) (i...)) ; (barr ...) = came from a boolean array
+  if (h == "arr") {  // (arr (shape...) (i...)) ; a boolean array is (barr ...), see append_barr
     auto shape = to_i64s(x[1]);
     auto v = to_i64s(x[2]);
     std::vector<int64_t> strides(shape.size(), 1);
@@ -407,12 +407,38 @@ inline SliceItemPtr build_item(const Sx& x) {
   if (h == "jag") {  // (jag (offsets...) item)
     return std::make_shared<SliceJagged64>(mkindex<int64_t>(to_i64s(x[1])), build_item(x[2]));
   }
+  if (h == "lay") {  // (lay LAYOUT): an awkward array used as an index, converted by the library's own Content::asslice()
+    return build(x[1])->asslice();   // (what toslice_part of src/python/content.cpp does for a non-rectilinear array)
+  }
   throw std::logic_error("build_item: " + x.str());
+}
+
+// (barr (shape...) (0|1 ...)): a rectilinear boolean array; as toslice_part does it becomes numpy.nonzero(array):
+// one integer array (1-d, frombool) per dimension, row-major order of the true positions
+inline void append_barr(Slice& s, const Sx& x) {
+  auto shape = to_i64s(x[1]);
+  auto v = to_i64s(x[2]);
+  int64_t n = 1;
+  for (auto d : shape) n *= d;
+  if (shape.empty() || (int64_t)v.size() != n) throw std::logic_error("barr: shape/data mismatch " + x.str());
+  std::vector<std::vector<int64_t>> pos(shape.size());
+  for (int64_t k = 0; k < n; k++) {
+    if (v[k] == 0) continue;
+    int64_t rest = k;
+    for (int64_t d = (int64_t)shape.size() - 1; d >= 0; d--) { pos[d].push_back(rest % shape[d]); rest /= shape[d]; }
+  }
+  for (size_t d = 0; d < shape.size(); d++) {
+    std::vector<int64_t> sh(1, (int64_t)pos[d].size()), st(1, 1);
+    s.append(std::make_shared<SliceArray64>(mkindex<int64_t>(pos[d]), sh, st, true));
+  }
 }
 
 inline Slice build_slice(const Sx& items) {
   Slice s;
-  for (auto& it : items.l) s.append(build_item(it));
+  for (auto& it : items.l) {
+    if (it.head() == "barr") append_barr(s, it);
+    else s.append(build_item(it));
+  }
   s.become_sealed();
   return s;
 }
